@@ -5,8 +5,8 @@ CONSTANTS
   NT = 3
   NS = 3
   ECodes = {0}
-  TCodes = {11, 33, 12, 31}
-  QuadIds = {2, 4}
+  TCodes = {33, 12, 31}
+  QuadIds = {4}
   SrcIds = {1, 2, 3, 4}
   Kinds = {"eclipse", "direct"}
   MaxCalls = 3
